@@ -7,7 +7,7 @@ RULE = ("M cases (R run + peak live heap growth measured by the harness' countin
         "declaring sizes from every class 0..2^56-2 in every vint width, at root, inside known-size and unknown-size masters, with the payload "
         "absent / partially present, x limits (5, 4096, 70000, default with sizes above 4e9 only) x tolerance settings x capacities; plus mutated "
         "streams with small limits.  Oracle: a declared size above the limit M is rejected with the size error (unless an earlier check fires) and "
-        "the measured peak stays <= 3*max(M, capacity, 16) + 4*len + 65536 (+ 200 bytes per level of nesting in the 'deep' cases: documents of recursive masters nested up to 800 deep - the iterator keeps ~150 bytes of bookkeeping per OPEN master, which the size limit bounds only indirectly: remark R8 in DESIGN.md); the model's buffer length stays <= max(M, capacity, 16).  "
+        "the measured peak stays <= 3*max(M, capacity, 16) + 2048 + 256 bytes per level of nesting the run reaches, independent of the input length - also on 'long' streams of thousands of within-limit elements read through a small buffer - (+ 200 bytes per level of nesting in the 'deep' cases: documents of recursive masters nested up to 800 deep - the iterator keeps ~150 bytes of bookkeeping per OPEN master, which the size limit bounds only indirectly: remark R8 in DESIGN.md); the model's buffer length stays <= max(M, capacity, 16).  "
         "non-trivial = a header declares more than is present; distinct = distinct case line")
 TRUSTED = TRUSTED_BASE + ["counting #[global_allocator] of the harness (harness/src/alloc.rs): realloc counted as size delta"]
 ASSUMPTIONS = ASSUME_BASE + ["the bound on real heap usage is an implementation-level oracle (allocator behaviour is not modelled); the theorem bounds the model's buffer length"]
@@ -67,6 +67,19 @@ def generate(rng, tier):
         data = E.id_bytes(0x81) + (E.UNKNOWN8 if unknown else E.size_vint(len(body))) + body
         for cap in ("0", "16", "def"):
             cases.append(Case("M %s %s - %s N" % (rs.s(), E.cfg_str(maxs=lim, cap=cap), data.hex()), "deep", {"size": None, "limit": int(lim), "present": 0, "depth": depth + 1}))
+    # long streams: thousands of elements within the limit, many refills of a small buffer - memory must not grow with the input
+    # (impl_only: the extracted model needs ~20 s for 150 KB; its buffer bound is the theorem C17_buffer_bounded)
+    def long_stream(nblocks, pay, unknown):
+        body = b""
+        for k in range(nblocks):
+            body += E.id_bytes(E.CHILD) + E.size_vint(pay) + bytes([k & 255]) * pay
+        inner = E.id_bytes(E.PARENT) + (E.UNKNOWN8 if unknown else (len(body) | (1 << 28)).to_bytes(4, "big")) + body
+        return E.id_bytes(E.ROOT) + (E.UNKNOWN8 if unknown else (len(inner) | (1 << 28)).to_bytes(4, "big")) + inner
+    for nb, pay, lim, cap, unk in ([(3000, 50, "64", "64", True), (600, 250, "1000", "256", True), (20000, 5, "64", "16", True), (3000, 50, "64", "0", True),
+                                    (1500, 100, "200000", "128", False)] if thorough else [(3000, 50, "64", "64", True), (600, 250, "1000", "256", True)]):
+        d = long_stream(nb, pay, unk)
+        cases.append(Case("M %s %s %s %s N" % (sp.s(), E.cfg_str(maxs=lim, cap=cap), rng.choice(["-", "1000,7,64"]), d.hex()), "long",
+                          {"size": None, "limit": int(lim), "present": 0, "impl_only": True}))
     specs = specs_pool(rng, 10)
     for k in range(3000 * TH if thorough else 300):
         spx, data, kind, _ = gen_stream(rng, specs, big=False, p_valid=0.2, p_mut=0.6)
@@ -128,9 +141,23 @@ def raw_check(case, raw_model, raw_impl):
         ip = int(raw_impl[0].split(" ")[0])
     except ValueError:
         return None
-    if mc > bound_model:
+    if mc > bound_model and not m.get("impl_only"):
         return "model buffer length %d exceeds max(limit, capacity, 16) = %d: %s" % (mc, bound_model, case.lines[0][-200:])
     # per open master: ~150 bytes of bookkeeping (measured 144), not bounded by the limit but by the nesting depth
-    if ip > 3 * bound_model + 4 * n + 65536 + 200 * m.get("depth", 0):
-        return "measured peak heap growth %d exceeds 3*max(limit %d, capacity %d, 16) + 4*len + 64KiB + 200*depth: %s" % (ip, m["limit"], cap, case.lines[0][-300:])
+    # calibrated on the unrepaired and the repaired tree: beyond 3*max(...) (old + new buffer while growing, plus the payload copy) the
+    # iterator needs well under 1 KiB, whatever the length of the input (long streams: ~700 bytes)
+    # nesting depth reached by the run, read off the emitted Starts / Ends (implied ancestors show up as unmatched Ends)
+    depth = cur = extra = 0
+    for t in raw_impl[0].split(" ")[1:]:
+        if t.startswith("s"):
+            cur += 1
+            depth = max(depth, cur)
+        elif t.startswith("e") and "@" in t and "=" not in t:
+            if cur:
+                cur -= 1
+            else:
+                extra += 1
+    depth = max(depth + extra, m.get("depth", 0))
+    if ip > 3 * bound_model + 2048 + 256 * depth:
+        return "measured peak heap growth %d exceeds 3*max(limit %d, capacity %d, 16) + 2 KiB + 256*depth(%d) (input %d bytes): %s" % (ip, m["limit"], cap, depth, n, case.lines[0][-300:])
     return None
